@@ -661,67 +661,493 @@ Proof. unfold dump_check. rewrite representable_save. reflexivity. Qed.
 (* ------------------------------------------------------------------ the YAML text layer *)
 Section YamlText.
   Variable text : Type.
-  (* the emitter, given the key-sorted tree of a state whose scalars all have a representer *)
-  Variable yaml_dump : tree -> text.
+  (* yaml.dump on the key-sorted tree of a state (None = RepresenterError) *)
+  Variable yaml_dump : tree -> option text.
   (* yaml.safe_load *)
   Variable yaml_load : text -> option tree.
+  (* trees the law is claimed for (e.g. every opaque token stands for a Python value) *)
+  Variable good : tree -> bool.
 
-  (* PyYAML's law — the only assumption: what was written is read back, scalar by scalar with
+  (* the round-trip law of the text layer: what was written is read back, scalar by scalar with
      its type, mapping by mapping in file order *)
   Hypothesis yaml_roundtrip :
-    forall t, representable (sort_tree t) = true -> yaml_load (yaml_dump (sort_tree t)) = Some (sort_tree t).
+    forall t, representable (sort_tree t) = true -> good (sort_tree t) = true ->
+              exists txt, yaml_dump (sort_tree t) = Some txt /\ yaml_load txt = Some (sort_tree t).
 
   Local Notation write_file := (write_file text yaml_dump).
   Local Notation read_file := (read_file text yaml_load).
   Local Notation rewrite_chain := (rewrite_chain text yaml_dump yaml_load).
 
   Lemma write_file_ok g txt :
-    write_file g = Ok txt -> txt = yaml_dump (save g) /\ representable (save g) = true.
+    write_file g = Ok txt -> yaml_dump (save g) = Some txt /\ representable (save g) = true.
   Proof.
     unfold write_file, dump_check. destruct (representable (save g)); [|discriminate].
-    cbn [bind]. intros [= <-]. auto.
+    cbn [bind]. destruct (yaml_dump (save g)); [|discriminate]. intros [= <-]. auto.
   Qed.
 
-  Lemma read_written g : representable (save g) = true -> read_file (yaml_dump (save g)) = Ok (norm g).
+  Lemma read_written g txt :
+    representable (save g) = true -> good (save g) = true -> yaml_dump (save g) = Some txt ->
+    read_file txt = Ok (norm g).
   Proof.
-    intros R. unfold read_file, save in *. rewrite (yaml_roundtrip _ R).
-    apply load_save_norm.
+    intros R G D. unfold read_file, save in *. destruct (yaml_roundtrip _ R G) as (txt' & D' & L).
+    rewrite D in D'. injection D' as <-. rewrite L. apply load_save_norm.
   Qed.
 
-  Theorem write_total g : snapshot_ok g = true -> write_file g = Ok (yaml_dump (save g)).
-  Proof. intros S. unfold write_file. rewrite (dump_total g S). reflexivity. Qed.
+  Theorem write_total g :
+    snapshot_ok g = true -> good (save g) = true ->
+    exists txt, write_file g = Ok txt /\ yaml_dump (save g) = Some txt.
+  Proof.
+    intros S G. pose proof (dump_total g S) as D.
+    assert (R : representable (save g) = true).
+    { unfold dump_check in D. destruct (representable (save g)); [reflexivity|discriminate]. }
+    unfold save in *. destruct (yaml_roundtrip _ R G) as (txt & Dm & _).
+    exists txt. split; [|exact Dm]. unfold write_file. rewrite D. cbn [bind]. unfold save. now rewrite Dm.
+  Qed.
 
   Theorem read_write g :
-    snapshot_ok g = true ->
+    snapshot_ok g = true -> good (save g) = true ->
     exists txt g', write_file g = Ok txt /\ read_file txt = Ok g' /\ restored g g'.
   Proof.
-    intros S. exists (yaml_dump (save g)), (norm g). split; [apply write_total, S|]. split.
-    - apply read_written. pose proof (dump_total g S) as D. unfold dump_check in D.
-      destruct (representable (save g)); [reflexivity|discriminate].
+    intros S G. destruct (write_total g S G) as (txt & W & D).
+    exists txt, (norm g). split; [exact W|]. split.
+    - apply read_written; [|exact G|exact D]. exact (proj2 (write_file_ok _ _ W)).
     - apply norm_restored, S.
   Qed.
 
   Theorem rewrite_same g txt g' :
-    nodup_deps (g_deps g) = true ->
+    nodup_deps (g_deps g) = true -> good (save g) = true ->
     write_file g = Ok txt -> read_file txt = Ok g' -> write_file g' = Ok txt.
   Proof.
-    intros Hd Hw Hr. destruct (write_file_ok _ _ Hw) as [-> R].
-    rewrite (read_written g R) in Hr. injection Hr as <-.
+    intros Hd G Hw Hr. destruct (write_file_ok _ _ Hw) as [D R].
+    rewrite (read_written g txt R G D) in Hr. injection Hr as <-.
     unfold write_file, dump_check in *. rewrite (save_norm g Hd). exact Hw.
   Qed.
 
   Theorem rewrite_chain_same n : forall g txt,
-    nodup_deps (g_deps g) = true -> write_file g = Ok txt -> rewrite_chain n txt = Ok txt.
+    nodup_deps (g_deps g) = true -> good (save g) = true ->
+    write_file g = Ok txt -> rewrite_chain n txt = Ok txt.
   Proof.
-    induction n as [|n IH]; intros g txt Hd Hw; cbn [rewrite_chain]; [reflexivity|].
-    destruct (write_file_ok _ _ Hw) as [E R]. subst txt.
-    rewrite (read_written g R). cbn [bind].
-    assert (Hw' : write_file (norm g) = Ok (yaml_dump (save g))).
-    { apply (rewrite_same g _ (norm g) Hd Hw). apply read_written, R. }
-    rewrite Hw'. cbn [bind]. apply (IH (norm g)); [|exact Hw'].
-    cbn [norm g_deps]. rewrite dedup_nodup; assumption.
+    induction n as [|n IH]; intros g txt Hd G Hw; cbn [rewrite_chain]; [reflexivity|].
+    destruct (write_file_ok _ _ Hw) as [D R].
+    rewrite (read_written g txt R G D). cbn [bind].
+    assert (Hw' : write_file (norm g) = Ok txt).
+    { apply (rewrite_same g _ (norm g) Hd G Hw). apply read_written; assumption. }
+    rewrite Hw'. cbn [bind]. apply (IH (norm g)); [| |exact Hw'].
+    - cbn [norm g_deps]. rewrite dedup_nodup; assumption.
+    - rewrite (save_norm g Hd). exact G.
   Qed.
 End YamlText.
+
+(* the same with the law claimed for every tree (the statements of props/C05.v) *)
+Section YamlTextAll.
+  Variable text : Type.
+  Variable yaml_dump : tree -> option text.
+  Variable yaml_load : text -> option tree.
+  Hypothesis yaml_roundtrip :
+    forall t, representable (sort_tree t) = true ->
+              exists txt, yaml_dump (sort_tree t) = Some txt /\ yaml_load txt = Some (sort_tree t).
+
+  Theorem read_write_all g :
+    snapshot_ok g = true ->
+    exists txt g', write_file text yaml_dump g = Ok txt /\ read_file text yaml_load txt = Ok g' /\ restored g g'.
+  Proof.
+    intro S. apply (read_write text yaml_dump yaml_load (fun _ => true)); auto.
+  Qed.
+
+  Theorem rewrite_chain_same_all n g txt :
+    nodup_deps (g_deps g) = true -> write_file text yaml_dump g = Ok txt ->
+    rewrite_chain text yaml_dump yaml_load n txt = Ok txt.
+  Proof.
+    intros Hd W. apply (rewrite_chain_same text yaml_dump yaml_load (fun _ => true)) with (g := g); auto.
+  Qed.
+End YamlTextAll.
+
+(* ------------------------------------------------------------------ induction over trees *)
+Section TreeInd.
+  Variable P : tree -> Prop.
+  Hypothesis Hv : forall v, P (TVal v).
+  Hypothesis Hl : forall l, Forall P l -> P (TList l).
+  Hypothesis Hm : forall m, Forall (fun kv => P (snd kv)) m -> P (TMap m).
+
+  Fixpoint tree_rect' (t : tree) : P t :=
+    match t with
+    | TVal v => Hv v
+    | TList l =>
+      Hl l ((fix go (l : list tree) : Forall P l :=
+               match l with
+               | [] => Forall_nil _
+               | x :: r => Forall_cons x (tree_rect' x) (go r)
+               end) l)
+    | TMap m =>
+      Hm m ((fix go (m : list (string * tree)) : Forall (fun kv => P (snd kv)) m :=
+               match m with
+               | [] => Forall_nil _
+               | kv :: r => Forall_cons kv (tree_rect' (snd kv)) (go r)
+               end) m)
+    end.
+End TreeInd.
+
+Section NTreeInd.
+  Variable P : ntree -> Prop.
+  Hypothesis Hs : forall s, P (NS s).
+  Hypothesis Hl : forall l, Forall P l -> P (NL l).
+  Hypothesis Hm : forall m, Forall (fun kv => P (snd kv)) m -> P (NM m).
+
+  Fixpoint ntree_rect' (t : ntree) : P t :=
+    match t with
+    | NS s => Hs s
+    | NL l =>
+      Hl l ((fix go (l : list ntree) : Forall P l :=
+               match l with
+               | [] => Forall_nil _
+               | x :: r => Forall_cons x (ntree_rect' x) (go r)
+               end) l)
+    | NM m =>
+      Hm m ((fix go (m : list (snode * ntree)) : Forall (fun kv => P (snd kv)) m :=
+               match m with
+               | [] => Forall_nil _
+               | kv :: r => Forall_cons kv (ntree_rect' (snd kv)) (go r)
+               end) m)
+    end.
+End NTreeInd.
+
+(* ------------------------------------------------------------------ the modelled text layer *)
+From SFV.P Require Import YamlScalarP.
+
+(* the list loops of represent_tree / construct_tree as ordinary functions *)
+Fixpoint opt_all {A} (l : list (option A)) : option (list A) :=
+  match l with
+  | [] => Some []
+  | x :: r => match x, opt_all r with Some a, Some b => Some (a :: b) | _, _ => None end
+  end.
+
+Lemma opt_all_map_inv {A B} (f : A -> option B) (g : B -> option A) (l : list A) :
+  Forall (fun x => forall y, f x = Some y -> g y = Some x) l ->
+  forall ys, opt_all (map f l) = Some ys -> opt_all (map g ys) = Some l.
+Proof.
+  induction l as [|x r IH]; intros H ys E; cbn [map opt_all] in E.
+  - injection E as <-. reflexivity.
+  - inversion H as [|? ? Hx Hr]; subst.
+    destruct (f x) as [y|] eqn:Ex; [|discriminate].
+    destruct (opt_all (map f r)) as [ys'|] eqn:Er; [|discriminate]. injection E as <-.
+    cbn [map opt_all]. rewrite (Hx y eq_refl), (IH Hr ys' eq_refl). reflexivity.
+Qed.
+
+Section YamlModelP.
+  Variable float_text : string -> string.
+  Variable date_text : Z -> string.
+  Variable datetime_text : Z -> option Z -> string.
+  Variable float_read : string -> option string.
+  Variable timestamp_read : string -> option value.
+  Variable decimal_read : string -> option string.
+
+  Local Notation represent_value := (represent_value float_text date_text datetime_text).
+  Local Notation represent_tree := (represent_tree float_text date_text datetime_text).
+  Local Notation construct_scalar := (construct_scalar float_read timestamp_read decimal_read).
+  Local Notation construct_tree := (construct_tree float_read timestamp_read decimal_read).
+  Local Notation key_of := (key_of float_read timestamp_read decimal_read).
+
+  Lemma represent_tree_list l :
+    represent_tree (TList l) = option_map NL (opt_all (map represent_tree l)).
+  Proof.
+    cbn [Continuation.represent_tree]. f_equal.
+    induction l as [|x r IH]; cbn [map opt_all]; [reflexivity|]. now rewrite IH.
+  Qed.
+
+  Lemma represent_tree_map m :
+    represent_tree (TMap m) =
+    option_map NM (opt_all (map (fun kv => option_map (fun a => (mkSN TgStr (fst kv), a)) (represent_tree (snd kv))) m)).
+  Proof.
+    cbn [Continuation.represent_tree]. f_equal.
+    induction m as [|[k x] r IH]; cbn [map opt_all fst snd]; [reflexivity|]. rewrite IH.
+    destruct (represent_tree x); reflexivity.
+  Qed.
+
+  Lemma construct_tree_list l :
+    construct_tree (NL l) = option_map TList (opt_all (map construct_tree l)).
+  Proof.
+    cbn [Continuation.construct_tree]. f_equal.
+    induction l as [|x r IH]; cbn [map opt_all]; [reflexivity|]. now rewrite IH.
+  Qed.
+
+  Lemma construct_tree_map m :
+    construct_tree (NM m) =
+    option_map TMap (opt_all (map (fun kv => match key_of (fst kv), construct_tree (snd kv) with
+                                             | Some k, Some a => Some (k, a)
+                                             | _, _ => None
+                                             end) m)).
+  Proof.
+    cbn [Continuation.construct_tree]. f_equal.
+    induction m as [|[k x] r IH]; cbn [map opt_all fst snd]; [reflexivity|]. rewrite IH.
+    destruct (key_of k); [|reflexivity]. destruct (construct_tree x); reflexivity.
+  Qed.
+
+  (* the representer fails exactly on the values [representable_value] excludes *)
+  Lemma represent_value_some v : representable_value v = true <-> exists n, represent_value v = Some n.
+  Proof.
+    destruct v; cbn [representable_value Continuation.represent_value]; split;
+      try (intros _; eexists; reflexivity); try reflexivity; try discriminate;
+      intros [n H]; discriminate.
+  Qed.
+
+  Lemma represent_tree_some t : representable t = true -> exists n, represent_tree t = Some n.
+  Proof.
+    induction t as [v|l IH|m IH] using tree_rect'.
+    - cbn [representable Continuation.represent_tree]. intro R.
+      apply represent_value_some in R as [n ->]. eexists. reflexivity.
+    - intro R. rewrite represent_tree_list. cbn [representable] in R.
+      assert (exists ns, opt_all (map represent_tree l) = Some ns) as [ns ->].
+      { induction l as [|x r IHr]; cbn [map opt_all]; [eexists; reflexivity|].
+        cbn [forallb] in R. apply andb_prop in R as [Rx Rr].
+        inversion IH as [|? ? Px Pr]; subst.
+        destruct (Px Rx) as [a ->]. destruct (IHr Pr Rr) as [b ->]. eexists. reflexivity. }
+      eexists. reflexivity.
+    - intro R. rewrite represent_tree_map. cbn [representable] in R.
+      match goal with |- exists n, option_map NM (opt_all ?L) = Some n =>
+        assert (exists ns, opt_all L = Some ns) as [ns ->] end.
+      { induction m as [|[k x] r IHr]; cbn [map opt_all fst snd]; [eexists; reflexivity|].
+        cbn [forallb] in R. apply andb_prop in R as [Rx Rr].
+        inversion IH as [|? ? Px Pr]; subst. cbn [snd] in Px.
+        destruct (Px Rx) as [a ->]. cbn [option_map]. destruct (IHr Pr Rr) as [b ->]. eexists. reflexivity. }
+      eexists. reflexivity.
+  Qed.
+
+  Lemma represent_tree_none t : representable t = false -> represent_tree t = None.
+  Proof.
+    induction t as [v|l IH|m IH] using tree_rect'.
+    - cbn [representable Continuation.represent_tree]. intro R.
+      destruct (represent_value v) eqn:E; [|reflexivity].
+      assert (representable_value v = true) by (apply represent_value_some; eauto). congruence.
+    - intro R. rewrite represent_tree_list. cbn [representable] in R.
+      assert (opt_all (map represent_tree l) = None) as ->; [|reflexivity].
+      induction l as [|x r IHr]; cbn [map opt_all forallb] in *; [discriminate|].
+      inversion IH as [|? ? Px Pr]; subst.
+      destruct (representable x) eqn:Rx.
+      + cbn [andb] in R. rewrite (IHr Pr R). destruct (represent_tree x); reflexivity.
+      + now rewrite (Px eq_refl).
+    - intro R. rewrite represent_tree_map. cbn [representable] in R.
+      match goal with |- option_map NM (opt_all ?L) = None => assert (opt_all L = None) as ->; [|reflexivity] end.
+      induction m as [|[k x] r IHr]; cbn [map opt_all forallb fst snd] in *; [discriminate|].
+      inversion IH as [|? ? Px Pr]; subst. cbn [snd] in Px.
+      destruct (representable x) eqn:Rx.
+      + cbn [andb] in R. rewrite (IHr Pr R). destruct (represent_tree x); reflexivity.
+      + now rewrite (Px eq_refl).
+  Qed.
+
+  (* tokens of the opaque kinds that stand for a Python value *)
+  Variable token_ok : value -> bool.
+  Local Notation tokens_ok := (tokens_ok token_ok).
+
+  (* Python's / PyYAML's printers and parsers of float, date, datetime, Decimal invert each other *)
+  Hypothesis codec_roundtrip :
+    codec_law float_text date_text datetime_text float_read timestamp_read decimal_read token_ok.
+
+  Lemma construct_represent_value v n :
+    implb (opaque_value v) (token_ok v) = true ->
+    represent_value v = Some n -> construct_scalar n = Some v.
+  Proof.
+    intros Hok R. destruct (opaque_value v) eqn:O.
+    - cbn [implb] in Hok. now apply codec_roundtrip.
+    - destruct v; try discriminate O; cbn [Continuation.represent_value] in R; try discriminate R;
+        injection R as <-; unfold Continuation.construct_scalar; cbn [sn_tag sn_text].
+      + reflexivity.
+      + destruct b; reflexivity.
+      + now rewrite construct_int_text.
+      + reflexivity.
+  Qed.
+
+  Theorem construct_represent t : forall n,
+    tokens_ok t = true -> represent_tree t = Some n -> construct_tree n = Some t.
+  Proof.
+    induction t as [v|l IH|m IH] using tree_rect'; intros n Hok R.
+    - cbn [Continuation.represent_tree] in R. destruct (represent_value v) as [s|] eqn:E; [|discriminate].
+      injection R as <-. cbn [Continuation.construct_tree].
+      now rewrite (construct_represent_value v s Hok E).
+    - rewrite represent_tree_list in R.
+      destruct (opt_all (map represent_tree l)) as [ns|] eqn:E; [|discriminate]. injection R as <-.
+      rewrite construct_tree_list.
+      rewrite (opt_all_map_inv represent_tree construct_tree l); [reflexivity| |exact E].
+      unfold Continuation.tokens_ok in Hok. cbn [tree_values_ok] in Hok. rewrite forallb_forall in Hok.
+      rewrite Forall_forall in IH |- *. intros x Hx y Hy. apply (IH x Hx); [|exact Hy]. apply Hok, Hx.
+    - rewrite represent_tree_map in R.
+      match type of R with option_map NM (opt_all ?L) = _ => destruct (opt_all L) as [ns|] eqn:E; [|discriminate] end.
+      injection R as <-. rewrite construct_tree_map.
+      erewrite opt_all_map_inv; [reflexivity| |exact E].
+      unfold Continuation.tokens_ok in Hok. cbn [tree_values_ok] in Hok. rewrite forallb_forall in Hok.
+      rewrite Forall_forall in IH |- *. intros [k x] Hx [k' y] Hy. cbn [fst snd] in *.
+      destruct (represent_tree x) as [a|] eqn:Ex; [|discriminate]. injection Hy as <- <-.
+      unfold Continuation.key_of, Continuation.construct_scalar. cbn [sn_tag sn_text].
+      rewrite (IH (k, x) Hx a); [reflexivity| |exact Ex]. exact (Hok (k, x) Hx).
+  Qed.
+
+  Variable resolve : string -> ytag.
+  Variable default_tag : ytag.
+  Variable analyze : string -> analysis.
+  Variable simple_key : string -> bool.
+
+  Local Notation present := (present resolve default_tag analyze simple_key).
+  Local Notation compose := (compose resolve default_tag).
+
+  (* every scalar (keys included) comes back from the composer with the tag and the text the
+     representer gave it: for EVERY resolver, default tag, analysis and simple-key decision *)
+  Theorem compose_present n : compose (present n) = n.
+  Proof.
+    induction n as [s|l IH|m IH] using ntree_rect'.
+    - cbn [Continuation.present Continuation.compose]. now rewrite compose_emit.
+    - cbn [Continuation.present Continuation.compose]. f_equal. rewrite map_map.
+      induction l as [|x r IHr]; cbn [map]; [reflexivity|].
+      inversion IH as [|? ? Px Pr]; subst. now rewrite Px, (IHr Pr).
+    - cbn [Continuation.present Continuation.compose]. f_equal. rewrite map_map.
+      induction m as [|[k x] r IHr]; cbn [map]; [reflexivity|].
+      inversion IH as [|? ? Px Pr]; subst. cbn [snd] in Px.
+      now rewrite compose_emit, Px, (IHr Pr).
+  Qed.
+
+  Variable text : Type.
+  Variable emit_chars : ptree -> text.
+  Variable scan_chars : text -> option ptree.
+
+  (* the character level reproduces what the emitter decided: structure, the text of every scalar,
+     whether it was plain, and its explicit tag *)
+  Hypothesis syntax_roundtrip :
+    syntax_law resolve default_tag analyze simple_key text emit_chars scan_chars.
+
+  Local Notation yaml_dump_m :=
+    (yaml_dump_m float_text date_text datetime_text resolve default_tag analyze simple_key text emit_chars).
+  Local Notation yaml_load_m :=
+    (yaml_load_m float_read timestamp_read decimal_read resolve default_tag text scan_chars).
+
+  (* the round-trip law of the text layer, derived *)
+  Theorem yaml_roundtrip_m t :
+    representable t = true -> tokens_ok t = true ->
+    exists txt, yaml_dump_m t = Some txt /\ yaml_load_m txt = Some t.
+  Proof.
+    intros R Hok. destruct (represent_tree_some t R) as [n E].
+    exists (emit_chars (present n)). unfold Continuation.yaml_dump_m, Continuation.yaml_load_m.
+    rewrite E. cbn [option_map]. split; [reflexivity|].
+    rewrite syntax_roundtrip, compose_present. now apply construct_represent.
+  Qed.
+
+  (* writing fails exactly when some value has no representer *)
+  Theorem yaml_dump_m_fails t : representable t = false -> yaml_dump_m t = None.
+  Proof. intro R. unfold Continuation.yaml_dump_m. now rewrite represent_tree_none. Qed.
+
+  Local Notation write_file_m := (write_file text yaml_dump_m).
+  Local Notation read_file_m := (read_file text yaml_load_m).
+  Local Notation rewrite_chain_m := (rewrite_chain text yaml_dump_m yaml_load_m).
+
+  Theorem read_write_m g :
+    snapshot_ok g = true -> tokens_ok (save g) = true ->
+    exists txt g', write_file_m g = Ok txt /\ read_file_m txt = Ok g' /\ restored g g'.
+  Proof.
+    apply (read_write text yaml_dump_m yaml_load_m tokens_ok).
+    intros t R G. now apply yaml_roundtrip_m.
+  Qed.
+
+  Theorem rewrite_chain_same_m n g txt :
+    nodup_deps (g_deps g) = true -> tokens_ok (save g) = true ->
+    write_file_m g = Ok txt -> rewrite_chain_m n txt = Ok txt.
+  Proof.
+    apply (rewrite_chain_same text yaml_dump_m yaml_load_m tokens_ok).
+    intros t R G. now apply yaml_roundtrip_m.
+  Qed.
+End YamlModelP.
+
+(* ------------------------------------------------------------------ references recorded while a run continues *)
+Lemma dep_eqb_eq a b : dep_eqb a b = true <-> a = b.
+Proof.
+  destruct a as [a1 a2 a3], b as [b1 b2 b3]. unfold dep_eqb. cbn [d_from d_to d_field]. split.
+  - intro H. apply andb_prop in H as [H H3]. apply andb_prop in H as [H1 H2].
+    apply String.eqb_eq in H1, H2, H3. now subst.
+  - intros [= -> -> ->]. now rewrite !String.eqb_refl.
+Qed.
+
+Lemma existsb_dep_In d l : existsb (dep_eqb d) l = true <-> In d l.
+Proof.
+  rewrite existsb_exists. split.
+  - intros (x & Hx & E). apply dep_eqb_eq in E. now subst.
+  - intro H. exists d. split; [exact H|]. now apply dep_eqb_eq.
+Qed.
+
+(* what the file restored stays in front, in its order *)
+Theorem record_prefix news : forall l, exists tail, record_deps l news = (l ++ tail)%list.
+Proof.
+  unfold record_deps. induction news as [|d r IH]; intro l; cbn [fold_left].
+  - exists []. now rewrite app_nil_r.
+  - unfold dep_add at 2. destruct (existsb (dep_eqb d) l).
+    + apply IH.
+    + destruct (IH (l ++ [d])%list) as [tail E]. exists (d :: tail). rewrite E, <- app_assoc. reflexivity.
+Qed.
+
+(* a run that only meets references it already knows leaves the list as it is *)
+Theorem record_known news : forall l,
+  (forall d, In d news -> In d l) -> record_deps l news = l.
+Proof.
+  unfold record_deps. induction news as [|d r IH]; intros l H; cbn [fold_left]; [reflexivity|].
+  unfold dep_add at 2. assert (existsb (dep_eqb d) l = true) as ->.
+  { apply existsb_dep_In, H. now left. }
+  apply IH. intros x Hx. apply H. now right.
+Qed.
+
+Lemma record_incl news : forall l d, In d l -> In d (record_deps l news).
+Proof.
+  intros l d H. destruct (record_prefix news l) as [tail ->]. apply in_or_app. now left.
+Qed.
+
+(* every reference the run met is recorded *)
+Theorem record_complete news : forall l d, In d news -> In d (record_deps l news).
+Proof.
+  unfold record_deps. induction news as [|x r IH]; intros l d H; [destruct H|].
+  cbn [fold_left]. destruct H as [->|H]; [|now apply IH].
+  apply (record_incl r). unfold dep_add. destruct (existsb (dep_eqb d) l) eqn:E.
+  - now apply existsb_dep_In.
+  - apply in_or_app. right. now left.
+Qed.
+
+(* nothing else is *)
+Theorem record_sound news : forall l d, In d (record_deps l news) -> In d l \/ In d news.
+Proof.
+  unfold record_deps. induction news as [|x r IH]; intros l d H; cbn [fold_left] in H; [now left|].
+  apply IH in H as [H|H]; [|right; now right].
+  unfold dep_add in H. destruct (existsb (dep_eqb x) l); [now left|].
+  apply in_app_or in H as [H|[->|[]]]; [now left|right; now left].
+Qed.
+
+Lemma nodup_deps_NoDup l : nodup_deps l = true <-> NoDup l.
+Proof.
+  induction l as [|x r IH]; cbn [nodup_deps]; [split; [constructor|reflexivity]|].
+  rewrite andb_true_iff, negb_true_iff, IH. split.
+  - intros [H1 H2]. constructor; [|exact H2]. intro H. apply existsb_dep_In in H. congruence.
+  - intro H. inversion H as [|? ? Hn Hr]; subst. split; [|exact Hr].
+    destruct (existsb (dep_eqb x) r) eqn:E; [|reflexivity]. apply existsb_dep_In in E. contradiction.
+Qed.
+
+(* the list stays a set *)
+Theorem record_nodup news : forall l, nodup_deps l = true -> nodup_deps (record_deps l news) = true.
+Proof.
+  unfold record_deps. induction news as [|x r IH]; intros l H; cbn [fold_left]; [exact H|].
+  apply IH. unfold dep_add. destruct (existsb (dep_eqb x) l) eqn:E; [exact H|].
+  apply nodup_deps_NoDup. apply nodup_deps_NoDup in H.
+  assert (Hn : ~ In x l) by (intro Hin; apply existsb_dep_In in Hin; congruence).
+  clear - H Hn. induction l as [|y l IHl]; cbn [app].
+  - constructor; [intros []|constructor].
+  - inversion H as [|? ? Hy Hl]; subst. constructor.
+    + intro Hin. apply in_app_or in Hin as [Hin|[->|[]]]; [contradiction|]. apply Hn. now left.
+    + apply IHl; [exact Hl|]. intro Hin. apply Hn. now right.
+Qed.
+
+(* a continued run starts from the references of the file: they stay in front, in order, whatever
+   the run generates; and if it generates nothing new they are the whole list *)
+Theorem continue_after_load g g' news :
+  nodup_deps (g_deps g) = true -> load (save g) = Ok g' ->
+  (exists tail, continue_deps g' news = (g_deps g ++ tail)%list) /\
+  ((forall d, In d news -> In d (g_deps g)) -> continue_deps g' news = g_deps g) /\
+  (forall from field, lookup_target (g_deps g') from field = lookup_target (g_deps g) from field).
+Proof.
+  intros Hd L. rewrite load_save_norm in L. injection L as <-.
+  unfold continue_deps. cbn [norm g_deps]. rewrite (dedup_nodup _ Hd).
+  split; [apply record_prefix|]. split; [apply record_known|reflexivity].
+Qed.
 
 (* ------------------------------------------------------------------ refutations (findings K1, K2) *)
 Definition k1_row : row := mkRow "A" [("id", VInt 1); ("b", VRow "B" 1); ("n", VInt 5)].
